@@ -17,7 +17,7 @@ runs and returned error — for every driver fault plan and every body (any leng
 stuck and lets no panic escape.  Swapping Commit/Rollback, inverting a condition, dropping the begin guard,
 moving the body call, turning `%w` into `%s` (or back) all break this theorem. -/
 theorem tie_transactOnConn_sem (f : Faults) (b : Body) :
-    outcome (run ⟨f, (runBody b).1, (runBody b).2⟩ transactOnConnBlk {}) =
+    outcome (run ⟨f, (runBody b).1, .ret (runBody b).2⟩ transactOnConnBlk {}) =
       some ((transactOnConn f b).log, (transactOnConn f b).runs, (transactOnConn f b).ret) := by
   unfold transactOnConn
   generalize (runBody b).1 = evs
@@ -26,7 +26,40 @@ theorem tie_transactOnConn_sem (f : Faults) (b : Body) :
   cases bg <;> cases cm <;> cases rb <;> cases out <;>
     first
     | rfl
-    | simp [transactOnConnBlk, run, outcome, assign, doInit, evalCond, doRet, fmtErr, argVal, Err.of]
+    | simp [transactOnConnBlk, run, outcome, assign, doInit, evalCond, doRet, callBody, fmtErr, argVal, Err.of]
+
+/-- the tree carries one of the two analysed versions of `transactOnConn`: the pinned one or the one with
+fixes/C14-commit-on-goexit-or-nil-panic.patch applied -/
+theorem tie_pinned_or_fixed : transactOnConnBlk = pinnedBlk ∨ transactOnConnBlk = fixedBlk := by decide
+
+/-- **Outside the property's quantifier** (kept as a finding, see the report): a body that leaves through
+`runtime.Goexit()` or through `panic(nil)` under GODEBUG=panicnil=1 is invisible to `recover() != nil`.
+The pinned code then takes the success branch and *commits* (and, for the nil panic, returns the commit's
+result — nil); the patched code rolls back and reports an error.  Witnesses on the pinned term: -/
+theorem witness_pinned_goexit_commits (evs : List Ev) (f : Faults) (hb : f.begin = true) :
+    (run ⟨f, evs, .goexit⟩ pinnedBlk {}).log = .begin true :: (evs ++ [.commit f.commit]) := by
+  obtain ⟨bg, cm, rb⟩ := f
+  cases hb
+  simp [pinnedBlk, run, assign, doInit, evalCond, doRet, callBody]
+
+theorem witness_pinned_nilpanic_commits_returns_nil (evs : List Ev) :
+    outcome (run ⟨⟨true, true, true⟩, evs, .nilPanic⟩ pinnedBlk {}) =
+      some (.begin true :: (evs ++ [.commit true]), 1, none) := by
+  simp [pinnedBlk, run, outcome, assign, doInit, evalCond, doRet, callBody]
+
+/-- … and the patched term rolls both back (and turns the nil panic into an error): -/
+theorem fixed_goexit_rolls_back (evs : List Ev) (f : Faults) (hb : f.begin = true) :
+    (run ⟨f, evs, .goexit⟩ fixedBlk {}).log = .begin true :: (evs ++ [.rollback f.rollback]) := by
+  obtain ⟨bg, cm, rb⟩ := f
+  cases hb
+  cases rb <;> simp [fixedBlk, run, assign, doInit, evalCond, doRet, callBody, fmtErr, argVal]
+
+theorem fixed_nilpanic_rolled_back_and_reported (evs : List Ev) (f : Faults) (hb : f.begin = true) :
+    ∃ e, outcome (run ⟨f, evs, .nilPanic⟩ fixedBlk {}) =
+      some (.begin true :: (evs ++ [.rollback f.rollback]), 1, some e) := by
+  obtain ⟨bg, cm, rb⟩ := f
+  cases hb
+  cases rb <;> simp [fixedBlk, run, outcome, assign, doInit, evalCond, doRet, callBody, fmtErr, argVal]
 
 /-- the decision is made on the *named* result `err` (the deferred closure assigns to it) -/
 theorem tie_namedResult : transactOnConnBlkResults = "err" ∧ transactBlkResults = "err" := by decide
@@ -40,15 +73,6 @@ theorem tie_transactBlk : transactBlk =
 
 /-- the standard sentinels `acceptable` accepts: exactly `Cls.noRows`, `Cls.txDone`, `Cls.canceled` -/
 theorem tie_acceptSentinels : acceptSentinels = ["sql.ErrNoRows", "sql.ErrTxDone", "context.Canceled"] := by decide
-
-/-- `transactOnConn`: begin guard (no body, no deferred decision when Begin fails), then the deferred
-decision  recover → Rollback | err ≠ nil → Rollback | else Commit, then the body. -/
-theorem tie_transactOnConnShape : transactOnConnShape =
-    ["call b", "if err != nil {", "return", "}",
-     "defer{", "func{", "recover", "if p != nil {", "call tx.Rollback", "if e != nil {", "}", "else{", "}", "}",
-     "else{", "if err != nil {", "call tx.Rollback", "if e != nil {", "}", "}",
-     "else{", "call tx.Commit", "}", "}", "}", "call func", "}",
-     "call fn", "return"] := by decide
 
 /-- `transact`: connection provider first; its failure is reported and nothing else happens. -/
 theorem tie_transactShape : transactShape =
